@@ -590,6 +590,50 @@ func ruleBalanceReal(c *Ctx) {
 		}
 		return false
 	}
+	// a condition that calls a predicate handed in as a parameter (`keep(item)` in a generic filter helper): the
+	// predicates passed at the helper's call sites read Virtual
+	basicReadsVirtual := readsVirtual
+	readsVirtual = func(cond ssa.Value) bool {
+		if basicReadsVirtual(cond) {
+			return true
+		}
+		for v := range backSlice(cond) {
+			call, ok := v.(*ssa.Call)
+			if !ok || call.Call.IsInvoke() {
+				continue
+			}
+			q, ok := call.Call.Value.(*ssa.Parameter)
+			if !ok {
+				continue
+			}
+			g := q.Parent()
+			idx := -1
+			for i, pp := range g.Params {
+				if pp == q {
+					idx = i
+				}
+			}
+			target := g
+			if o := g.Origin(); o != nil {
+				target = o
+			}
+			for _, site := range (cgView{c}).callersOf(target) {
+				if idx < 0 || idx >= len(site.Common().Args) {
+					continue
+				}
+				if fn := resolveLocalFunc(site.Common().Args[idx]); fn != nil {
+					for _, b := range fn.Blocks {
+						for _, ins := range b.Instrs {
+							if r, ok := ins.(*ssa.Return); ok && len(r.Results) == 1 && basicReadsVirtual(r.Results[0]) {
+								return true
+							}
+						}
+					}
+				}
+			}
+		}
+		return false
+	}
 	// filters: functions returning []ast.Posting whose appends depend on a test of Virtual
 	filters := map[*ssa.Function]bool{}
 	for _, f := range c.P.ModuleFuncs() {
@@ -648,6 +692,14 @@ func ruleBalanceReal(c *Ctx) {
 					}
 					// the filtered list built in place: an append that is control dependent on a test of Virtual
 					if bi, isB := call.Call.Value.(*ssa.Builtin); isB && bi.Name() == "append" {
+						for _, cc := range controlDeps(call.Block()) {
+							if readsVirtual(cc.Cond) {
+								ok = true
+							}
+						}
+					}
+					// a filtering iterator / visitor: the callback is invoked only behind a test of Virtual
+					if _, isParam := call.Call.Value.(*ssa.Parameter); isParam && !call.Call.IsInvoke() {
 						for _, cc := range controlDeps(call.Block()) {
 							if readsVirtual(cc.Cond) {
 								ok = true
